@@ -299,13 +299,13 @@ func (r *Runner) checkProperty(id string) int {
 		"undischarged":             undischarged,
 		"known_findings_hit":       kfl,
 		"discharged_only_outside_known_finding_class": nRestricted,
-		"vacuity":                  map[string]any{"canaries": nCan, "canaries_reachable": nCanOK, "unreachable_returns": deadReturns, "rule": "each canary asserts false at a function entry, loop body or return and must NOT be provable"},
-		"samples":                  samples,
-		"dropped":                  droppedStatement,
-		"not_decided":              r.eng.notDecided(id),
-		"contract_files":           relFiles(r.eng.db.Files),
-		"query_timeout_s":          r.queryTimeout(),
-		"slowest_obligation":       map[string]any{"obligation": slowest.name, "seconds": round3(slowest.secs), "second_pass": slowest.retried},
+		"vacuity":            map[string]any{"canaries": nCan, "canaries_reachable": nCanOK, "unreachable_returns": deadReturns, "rule": "each canary asserts false at a function entry, loop body or return and must NOT be provable"},
+		"samples":            samples,
+		"dropped":            droppedStatement,
+		"not_decided":        r.eng.notDecided(id),
+		"contract_files":     relFiles(r.eng.db.Files),
+		"query_timeout_s":    r.queryTimeout(),
+		"slowest_obligation": map[string]any{"obligation": slowest.name, "seconds": round3(slowest.secs), "second_pass": slowest.retried},
 	}
 	if len(kfReplays) > 0 {
 		cov["known_finding_replays"] = kfReplays
